@@ -242,6 +242,81 @@ def classify_bytes(s):
     return "+".join(k) or "plain"
 
 
+def job_mixed(payload):
+    """A rendering is a function of the value alone: the same constants rendered next to other constants -- as elements
+    of one sequence through "%s", nested and top-level in one CLI run, twice in a row -- come out exactly as when each is
+    rendered alone (no state of the output stream or of a name table may carry over from the neighbour)."""
+    seed, count, names = payload
+    d = common.get_driver()
+    rng = random.Random(seed)
+    exe = os.path.join(common.VERIF, "build", common.VARIANT, "dwgrep", "dwgrep")
+    env = dict(os.environ); env.update(common.ASAN_ENV)
+    out = {"mixed": 0, "mixed_cli": 0, "bad": []}
+    alone = {}
+
+    def solo(t):
+        if t not in alone:
+            r = d.run(t)
+            rs = d.run(t + ' "%s"')
+            if r["st"] != "done" or len(r["res"]) != 1 or rs["st"] != "done" or len(rs["res"]) != 1:
+                alone[t] = None
+            else:
+                c = r["res"][0][0]
+                alone[t] = (c["f"], c["b"], bytes.fromhex(rs["res"][0][0]["v"]).decode("latin-1"))
+        return alone[t]
+
+    def atom():
+        k = rng.random()
+        if k < 0.55:
+            v = rng.choice([0, 1, 7, 10, 16, 255, 256, -1, -10, -255, (1 << 63) - 1, -(1 << 63), 1 << 63, (1 << 64) - 1, rng.getrandbits(rng.randint(1, 63))])
+            return lit(v, rng.choice(list(DOMS)))
+        if k < 0.9:
+            return rng.choice(names)
+        return rng.choice(["true", "false", "T_CONST", "T_STR"])
+    for i in range(count):
+        items = [atom() for _ in range(rng.randint(2, 5))]
+        if rng.random() < 0.5:
+            items.insert(rng.randrange(len(items) + 1), rng.choice(items))      # the same constant twice
+        sol = [solo(t) for t in items]
+        if any(x is None for x in sol):
+            continue
+        try:
+            out["mixed"] += 1
+            seqt = "[" + ", ".join(items) + "]"
+            r = d.run(seqt)
+            if r["st"] != "done" or len(r["res"]) != 1:
+                out["bad"].append(("mixed-sequence-does-not-evaluate", dict(text=seqt))); continue
+            el = r["res"][0][0]["v"]
+            for t, e, s0 in zip(items, el, sol):
+                if (e["f"], e["b"]) != s0[:2]:
+                    out["bad"].append(("rendering-depends-on-neighbours:in-sequence", dict(text=seqt, element=t, alone=s0[:2], here=(e["f"], e["b"])))); break
+            rs = d.run(seqt + ' "%s"')
+            want = "[" + ", ".join(x[2] for x in sol) + "]"
+            got = bytes.fromhex(rs["res"][0][0]["v"]).decode("latin-1") if rs["st"] == "done" and rs["res"] else None
+            if got != want:
+                out["bad"].append(("rendering-depends-on-neighbours:%s-of-sequence", dict(text=seqt, want=want, got=got)))
+            rf = d.run(" ".join(items) + ' "' + " ".join("%s" for _ in items) + '"')
+            want2 = " ".join(x[2] for x in sol)
+            got2 = bytes.fromhex(rf["res"][0][0]["v"]).decode("latin-1") if rf["st"] == "done" and rf["res"] else None
+            if got2 != want2:
+                out["bad"].append(("rendering-depends-on-neighbours:several-%s", dict(text=" ".join(items), want=want2, got=got2)))
+            if i % 4 == 0:
+                # CLI: nested (brief) first, then each top-level (full), then nested again
+                q = "%s, %s, %s" % (seqt, ", ".join(items), seqt)
+                p = subprocess.run([exe, "-e", q], stdout=subprocess.PIPE, stderr=subprocess.PIPE, env=env, timeout=120, stdin=subprocess.DEVNULL)
+                out["mixed_cli"] += 1
+                wantl = ["[" + ", ".join(x[1] for x in sol) + "]"] + [x[0] for x in sol] + ["[" + ", ".join(x[1] for x in sol) + "]"]
+                gotl = p.stdout.decode("latin-1").split("\n")[:-1]
+                if p.returncode != 0 or gotl != wantl:
+                    out["bad"].append(("rendering-depends-on-neighbours:cli", dict(query=q, want=wantl, got=gotl[:12], rc=p.returncode, stderr=p.stderr[-300:].decode("latin-1"))))
+        except common.DriverCrash as ex:
+            out["bad"].append(("crash:" + getattr(ex, "key", ex.kind), dict(items=items, report=ex.report[-3000:])))
+        except subprocess.TimeoutExpired:
+            out["bad"].append(("cli-hang", dict(items=items)))
+    out["bad"] = out["bad"][:40]
+    return out
+
+
 def run(chk):
     quick = chk.tier == "quick"
     rng = chk.rng()
@@ -278,8 +353,11 @@ def run(chk):
         strs.append(b"".join(rng.choice(ALPHA + [bytes([rng.randrange(256)])]) for _ in range(rng.randint(3, 12))))
     sjobs = [(strs[i:i + 60], 1) for i in range(0, len(strs), 60)] + [(strs[i:i + 60], 2) for i in range(0, len(strs), 240)]
     zcheck.consume(chk, pool.map(job_strings, sjobs), tot, ctx, samples, "C20 strings")
+    named = [w for w in cand if w.startswith("DW_")]
+    zcheck.consume(chk, pool.map(job_mixed, [(chk.seed * 29 + i, 60, named) for i in range(16 if quick else 320)]), tot, ctx, samples, "C20 mixed")
     pool.finish()
     chk.cov.update({
+        "mixed_sequences_rendered_next_to_each_other": tot.get("mixed", 0), "of_which_also_through_the_CLI": tot.get("mixed_cli", 0),
         "evaluations": tot.get("constants", 0) + tot.get("alias_checks", 0) + tot.get("ints", 0) + tot.get("fmt", 0) + tot.get("strings", 0),
         "distinct_nontrivial": tot.get("roundtrip", 0) + tot.get("alias_nonempty", 0) + len(set(strs)),
         "rule": "one evaluation = one constant word round trip, one alias family member on one file, one integer x domain (+4 directives), or one string "
